@@ -12,7 +12,7 @@ CONSTANTS
   Filts = {"none", "client"}
   Ops = {"pub", "rem", "exp", "sexp", "clear", "refresh", "poscheck"}
   Pres = {3}
-  N0s = {0}
+  N0s = {0, 2}
   Contig = FALSE
   DropStale = FALSE
 VIEW View
